@@ -266,6 +266,27 @@ def execute(mat, ctx):
                 ctx.violation("repeated-call-differs:dangling-citation:call-%d" % n, "a record citing [1] without any reference list: call %d on the same objects gives %s, a first call on fresh copies %s" % (
                     n, str(sg)[:200], str(fresh_sig)[:200]), scenario="dangling-citation-without-reference-list")
                 break
+    # the same paper listed twice in one input, once for the whole plasmid and once for a stretch of it (two entries that differ
+    # in their span only, as GenBank files of curated plasmids have them), a feature citing the *second* entry
+    for j in (0, nm):
+        if not specs[j].get("refs"):
+            continue
+        spec = copy.deepcopy(specs[j])
+        n = len(spec["seq"])
+        twin = dict(spec["refs"][0], span=[[0, max(1, n // 2)]])
+        spec["refs"] = [dict(spec["refs"][0], span=True)] + spec["refs"][1:] + [twin]
+        spec["features"] = list(spec["features"]) + [{"type": "misc_feature", "parts": [[0, 2, 1]], "quals": {"uid": ["twin.%d" % j], "citation": ["[%d]" % len(spec["refs"])]}}]
+        recs = list(shared)
+        recs[j] = gen.make_record(spec)
+        sigs = []
+        for n_ in (1, 2):
+            v, ms = ents(recs)
+            sigs.append(_call(v, ms, {"scenario": "paper-listed-twice-with-two-spans in element %d: call %d" % (j, n_)}))
+        ctx.count("c07_twice_listed_paper_histories")
+        ctx.count("evaluations")
+        if sigs[0] != sigs[1]:
+            ctx.violation("repeated-call-differs:paper-listed-twice", "an input lists one paper twice (two spans): the second call on the same objects gives %s, the first %s" % (
+                str(sigs[1])[:200], str(sigs[0])[:200]), scenario="paper-listed-twice")
     # invalid vector: a module used as the vector of itself has equal overhangs only by accident; build one explicitly
     ov = mat["overhangs"]
     rng = gen.rng_for("c07-invalid-vector", mat["id"])
@@ -279,7 +300,13 @@ def execute(mat, ctx):
     try:
         extra = gen.build_module(rng, geom, gen.gen_overhangs(rng, geom[2], 1, forbid=(geom[0], rc(geom[0])))[0], ov[0], 5, 5)
         if extra["seq"][len(geom[0]) + geom[1]:][:geom[2]] not in ov and rc(extra["seq"][len(geom[0]) + geom[1]:][:geom[2]]) not in ov:
-            ex = gen.make_record({"id": "extra", "seq": extra["seq"], "features": [{"type": "misc_feature", "parts": [[0, 5, 1]], "quals": {"uid": ["extra.0"]}}]})
+            # the leftover module is a documented plasmid too: a reference list of its own and a feature citing it
+            ex = gen.make_record({"id": "extra", "seq": extra["seq"],
+                                  "features": [{"type": "misc_feature", "parts": [[0, 5, 1]], "quals": {"uid": ["extra.0"]}},
+                                               {"type": "CDS", "parts": [[2, 9, 1]], "quals": {"uid": ["extra.1"], "citation": ["[2]", "[1]"]}}],
+                                  "refs": [{"title": "A module nobody needed", "authors": "Left O.", "journal": "J. Leftovers 1:1", "span": True},
+                                           {"title": "Direct Submission", "authors": "Left O.", "journal": "Submitted (01-JAN-2020)", "span": [[0, 9]]}]})
+            ctx.count("c07_unused_modules_with_citations")
             natural("unused-module-warning", shared + [ex])
             # the same call with warnings escalated to errors (the documented way of refusing leftovers): the warning is
             # raised inside assemble(), wherever the library issues it
